@@ -5,6 +5,7 @@ import PPProofs.Lemmas.OneOf
 import PPProofs.Lemmas.OneOfCaseless
 import PPProofs.Lemmas.CompressedRe
 import PPProofs.Lemmas.RoundTrip
+import PPProofs.Lemmas.WordTwin
 /-!
 # C17 — alternative matching strategies for the same element are equivalent
 
@@ -174,6 +175,34 @@ theorem word_paths_agree_partial (a : WordArgs) (w : Word) (r : Re) (h : mkWord 
       charIn w.bodySet s (runEnd w.bodySet.contains w.maxLen s loc) = false) :
     rePath r s loc = slowPath w s loc := by
   rw [word_re_spec a w r h hr hkw, word_slow_spec a w h hkw s loc hstrict]
+
+/-- **word_space_twin**: the device "whether or not its character sets allow the compiled-regex path": the
+    same Word with a blank added to its sets (`twinArgs`) never gets the regex path, and on blank-free input
+    its character loop computes exactly what the character loop of the original object computes. (Excluded:
+    a blank in `exclude_chars`, and the constructor quirk where `exclude_chars` removes every body character.) -/
+theorem word_space_twin (a : WordArgs) (w w' : Word) (h : mkWord a = some w)
+    (h' : mkWord (twinArgs a) = some w') (hex : ' ' ∉ a.excl)
+    (hq : a.body = [] ∨ ∃ d ∈ a.body, d ∉ a.excl)
+    (s : List Char) (hs : ' ' ∉ s) (loc : Nat) :
+    w'.re = none ∧ slowPath w' s loc = slowPath w s loc :=
+  twin_slow a w w' h h' hex hq s hs loc
+
+/-- **word_twin_agrees_partial**: the statement's reading of path independence: a regex-path Word and its
+    blank-class twin (character-loop path) return the same result on blank-free input — PARTIAL: outside
+    the strict-max and as_keyword regions (see `word_paths_agree_partial`). -/
+theorem word_twin_agrees_partial (a : WordArgs) (w w' : Word) (r : Re) (h : mkWord a = some w)
+    (h' : mkWord (twinArgs a) = some w') (hr : w.re = some r) (hkw : a.asKeyword = false)
+    (hex : ' ' ∉ a.excl) (hq : a.body = [] ∨ ∃ d ∈ a.body, d ∉ a.excl)
+    (s : List Char) (hs : ' ' ∉ s) (loc : Nat)
+    (hstrict : w.maxSpecified = true →
+      charIn w.bodySet s (runEnd w.bodySet.contains w.maxLen s loc) = false) :
+    parseWord w s loc = parseWord w' s loc := by
+  obtain ⟨hre', hsl⟩ := twin_slow a w w' h h' hex hq s hs loc
+  unfold parseWord
+  rw [hr, hre']
+  simp only []
+  rw [hsl]
+  exact word_paths_agree_partial a w r h hr hkw s loc hstrict
 
 /-- the two paths of `Word('a', max=3)` differ on `'aaaa'` (finding word_max_slow_strict): the installed
     regex path returns 3, the character loop forced on the same object raises -/
